@@ -287,18 +287,22 @@ theorem applyPrim_fq (s : State) (p : Prim) (x : Name × Entry) (h : x ∈ (appl
     | (split at h <;> exact Or.inl h)
 
 theorem applyPrim_wait (s : State) (p : Prim) (w : Name × Name × Entry) (h : w ∈ (applyPrim s p).mem.wait) :
-    w ∈ s.mem.wait ∨ p = Prim.waitAdd w.1 w.2.1 w.2.2 := by
+    (∃ w0 ∈ s.mem.wait, w0.2.1 = w.2.1 ∧ w0.2.2.hash = w.2.2.hash ∧ w0.2.2.prev = w.2.2.prev) ∨
+      p = Prim.waitAdd w.1 w.2.1 w.2.2 := by
   cases p <;> simp only [applyPrim, applyMem] at h
   case waitAdd q m e0 =>
     split at h
-    · exact Or.inl h
+    · -- the listed file stays; only the window of its log search moves
+      obtain ⟨w0, hw0, rfl⟩ := List.mem_map.mp h
+      refine Or.inl ⟨w0, hw0, ?_⟩
+      split <;> exact ⟨rfl, rfl, rfl⟩
     · rcases List.mem_append.mp h with h | h
-      · exact Or.inl h
+      · exact Or.inl ⟨w, h, rfl, rfl, rfl⟩
       · simp only [List.mem_singleton] at h; subst h; exact Or.inr rfl
-  case waitTake q => exact Or.inl (List.mem_filter.mp h).1
+  case waitTake q => exact Or.inl ⟨w, (List.mem_filter.mp h).1, rfl, rfl, rfl⟩
   all_goals first
-    | exact Or.inl h
-    | (split at h <;> exact Or.inl h)
+    | exact Or.inl ⟨w, h, rfl, rfl, rfl⟩
+    | (split at h <;> exact Or.inl ⟨w, h, rfl, rfl, rfl⟩)
 
 /-- the invariant is preserved by a primitive that meets the guard -/
 theorem CarriedInv_step {Ac A : Name → String → String → Prop} (s : State) (p : Prim)
@@ -326,8 +330,8 @@ theorem CarriedInv_step {Ac A : Name → String → String → Prop} (s : State)
     · exact hi.fq x h
     · exact hg
   · intro w h
-    rcases applyPrim_wait s p w h with h | rfl
-    · exact hi.wait w h
+    rcases applyPrim_wait s p w h with ⟨w0, h0, h1, h2, h3⟩ | rfl
+    · rw [← h1, ← h2, ← h3]; exact hi.wait w0 h0
     · exact hg
   · intro r h
     rw [applyPrim_log] at h
